@@ -22,15 +22,57 @@ theorem any_of_all_ne {u : Fields} (hu : u.all (fun kv => kv.1.startsWith "$") =
 
 /-- a non-empty operator update runs its operators one after the other -/
 theorem applyUpdate_whole (spec now : Val) (wi : Bool) (u : Fields) (d : Val)
-    (hu : u.all (fun kv => kv.1.startsWith "$") = true) (hne : u ≠ []) :
+    (hu : u.all (fun kv => kv.1.startsWith "$") = true) (hne : u ≠ [])
+    (hpos : positionalUpdate u = false) :
     applyUpdate spec (.doc u) now wi d =
       u.foldlM (fun acc kv => opRun spec now wi kv.1 kv.2 acc) d := by
   have hw := any_of_all_ne hu hne
   cases u with
   | nil => exact absurd rfl hne
   | cons kv r =>
-    simp only [applyUpdate]
+    simp only [applyUpdate, hpos, Bool.false_eq_true, if_false]
     exact applyOps_eq spec now wi _ hw _ true d
+
+/-- an update is positional exactly when one of its entries is -/
+def posEntry (e : Entry) : Bool := positionalOperators.contains e.1 && hasDollarPart e.2.1
+
+theorem positionalUpdate_entries : ∀ (u : Fields),
+    positionalUpdate u = (entries u).any posEntry
+  | [] => rfl
+  | (k, v) :: rest => by
+    rw [entries_cons, List.any_append, ← positionalUpdate_entries rest]
+    simp only [positionalUpdate, List.any_cons]
+    congr 1
+    cases v with
+    | doc body =>
+      simp only [entriesOf, List.any_map]
+      cases hc : positionalOperators.contains k
+      · have hm : k ∉ positionalOperators := by simpa using hc
+        simp [posEntry, Function.comp_def, hm]
+      · have hm : k ∈ positionalOperators := by simpa using hc
+        simp [posEntry, Function.comp_def, hm]
+    | _ => simp [entriesOf]
+
+theorem positionalUpdate_single (e : Entry) : positionalUpdate (single e) = posEntry e := by
+  simp [positionalUpdate, single, posEntry]
+
+theorem single_not_positional {u : Fields} (hpos : positionalUpdate u = false) {e : Entry}
+    (he : e ∈ entries u) : positionalUpdate (single e) = false := by
+  rw [positionalUpdate_single]
+  rw [positionalUpdate_entries, List.any_eq_false] at hpos
+  simpa using hpos e he
+
+theorem positionalUpdate_perm {u u' : Fields} (hp : (entries u).Perm (entries u')) :
+    positionalUpdate u' = positionalUpdate u := by
+  rw [positionalUpdate_entries, positionalUpdate_entries]
+  cases h : (entries u).any posEntry with
+  | true =>
+    obtain ⟨e, he, hpe⟩ := List.any_eq_true.mp h
+    exact List.any_eq_true.mpr ⟨e, hp.mem_iff.mp he, hpe⟩
+  | false =>
+    rw [List.any_eq_false] at h ⊢
+    intro e he
+    exact h e (hp.mem_iff.mpr he)
 
 theorem entries_key_mem {u : Fields} {e : Entry} (he : e ∈ entries u) :
     ∃ v, (e.1, v) ∈ u := by
@@ -100,6 +142,7 @@ open MongoModel MongoModel.Spec MongoModel.Proofs.C02Lemmas
 
 theorem entry_reads_only_its_fields (spec now : Val) (wasInsert : Bool) (e : Entry)
     (fs gs : Fields) (he : e.1.startsWith "$" = true)
+    (hpos : positionalUpdate (single e) = false)
     (hk : (dkeys fs).Nodup) (hk' : (dkeys gs).Nodup)
     (hag : ∀ k, k ∈ addressed (single e) → dget k fs = dget k gs) :
     (∀ err, applyUpdate spec (.doc (single e)) now wasInsert (.doc fs) = .error err →
@@ -107,7 +150,8 @@ theorem entry_reads_only_its_fields (spec now : Val) (wasInsert : Bool) (e : Ent
     (∀ fs', applyUpdate spec (.doc (single e)) now wasInsert (.doc fs) = .ok (.doc fs') →
       ∃ gs', applyUpdate spec (.doc (single e)) now wasInsert (.doc gs) = .ok (.doc gs') ∧
         ∀ k, k ∈ addressed (single e) → dget k fs' = dget k gs') := by
-  rw [applyUpdate_single spec now wasInsert e _ he, applyUpdate_single spec now wasInsert e _ he]
+  rw [applyUpdate_single spec now wasInsert e _ he hpos,
+    applyUpdate_single spec now wasInsert e _ he hpos]
   rw [addressed_single] at hag ⊢
   have ha : Agree (eheads e) fs gs := by
     intro k hkm
@@ -126,12 +170,12 @@ theorem entry_reads_only_its_fields (spec now : Val) (wasInsert : Bool) (e : Ent
 
 theorem update_is_pointwise (spec now : Val) (wasInsert : Bool) (u fs fs' : Fields)
     (hu : u.all (fun kv => kv.1.startsWith "$") = true) (hne : u ≠ [])
-    (hd : (addressed u).Nodup)
+    (hpos : positionalUpdate u = false) (hd : (addressed u).Nodup)
     (h : applyUpdate spec (.doc u) now wasInsert (.doc fs) = .ok (.doc fs')) :
     ∀ e, e ∈ entries u → ∃ fs₁,
       applyUpdate spec (.doc (single e)) now wasInsert (.doc fs) = .ok (.doc fs₁) ∧
       ∀ k, k ∈ addressed (single e) → dget k fs' = dget k fs₁ := by
-  rw [applyUpdate_whole spec now wasInsert u _ hu hne] at h
+  rw [applyUpdate_whole spec now wasInsert u _ hu hne hpos] at h
   have hflat := flat_ok spec now wasInsert u _ _ h
   rw [addressed_entries] at hd
   obtain ⟨fs'', e', hall⟩ := fold_pointwise (estep spec now wasInsert) eheads (entries u)
@@ -140,22 +184,24 @@ theorem update_is_pointwise (spec now : Val) (wasInsert : Bool) (u fs fs' : Fiel
   intro e he
   obtain ⟨gs1, h1, hag⟩ := hall e he
   refine ⟨gs1, ?_, ?_⟩
-  · rw [applyUpdate_single spec now wasInsert e _ (entries_dollar hu he)]; exact h1
+  · rw [applyUpdate_single spec now wasInsert e _ (entries_dollar hu he)
+      (single_not_positional hpos he)]; exact h1
   · intro k hk
     rw [addressed_single] at hk
     exact hag.dget hk
 
 theorem update_error_of_entry (spec now : Val) (wasInsert : Bool) (u fs : Fields)
     (hu : u.all (fun kv => kv.1.startsWith "$") = true) (hne : u ≠ [])
-    (hd : (addressed u).Nodup) (e : Entry) (he : e ∈ entries u) (err : Err)
+    (hpos : positionalUpdate u = false) (hd : (addressed u).Nodup) (e : Entry) (he : e ∈ entries u) (err : Err)
     (h : applyUpdate spec (.doc (single e)) now wasInsert (.doc fs) = .error err) :
     ∃ err', applyUpdate spec (.doc u) now wasInsert (.doc fs) = .error err' := by
-  rw [applyUpdate_single spec now wasInsert e _ (entries_dollar hu he)] at h
+  rw [applyUpdate_single spec now wasInsert e _ (entries_dollar hu he)
+    (single_not_positional hpos he)] at h
   rw [addressed_entries] at hd
   obtain ⟨err1, h1⟩ := (fold_error_iff (estep spec now wasInsert) eheads (entries u)
     (fun s _ => estep_local spec now wasInsert s) hd fs fs (Agree.refl _ _)).mpr
     ⟨e, he, err, h⟩
-  rw [applyUpdate_whole spec now wasInsert u _ hu hne]
+  rw [applyUpdate_whole spec now wasInsert u _ hu hne hpos]
   cases hx : u.foldlM (fun acc kv => opRun spec now wasInsert kv.1 kv.2 acc) (.doc fs) with
   | error e' => exact ⟨e', rfl⟩
   | ok r =>
@@ -163,27 +209,29 @@ theorem update_error_of_entry (spec now : Val) (wasInsert : Bool) (u fs : Fields
     cases h1
 
 theorem update_error_iff (spec now : Val) (wasInsert : Bool) (u fs : Fields) (hne : u ≠ [])
-    (hs : wellShaped u = true) (hd : (addressed u).Nodup) :
+    (hs : wellShaped u = true) (hpos : positionalUpdate u = false) (hd : (addressed u).Nodup) :
     (∃ err, applyUpdate spec (.doc u) now wasInsert (.doc fs) = .error err) ↔
       ∃ e, e ∈ entries u ∧
         ∃ err, applyUpdate spec (.doc (single e)) now wasInsert (.doc fs) = .error err := by
   have hu := wellShaped_dollar hs
   constructor
   · intro h
-    rw [applyUpdate_whole spec now wasInsert u _ hu hne] at h
+    rw [applyUpdate_whole spec now wasInsert u _ hu hne hpos] at h
     have h2 := (err_iff_of_ok_iff (fun r =>
       ⟨flat_ok spec now wasInsert u (.doc fs) r, flat_ok_conv spec now wasInsert u (.doc fs) r hs⟩)).mp h
     rw [addressed_entries] at hd
     obtain ⟨e, he, err, h3⟩ := (fold_error_iff (estep spec now wasInsert) eheads (entries u)
       (fun s _ => estep_local spec now wasInsert s) hd fs fs (Agree.refl _ _)).mp h2
     refine ⟨e, he, err, ?_⟩
-    rw [applyUpdate_single spec now wasInsert e _ (entries_dollar hu he)]; exact h3
+    rw [applyUpdate_single spec now wasInsert e _ (entries_dollar hu he)
+      (single_not_positional hpos he)]; exact h3
   · rintro ⟨e, he, err, h⟩
-    exact update_error_of_entry spec now wasInsert u fs hu hne hd e he err h
+    exact update_error_of_entry spec now wasInsert u fs hu hne hpos hd e he err h
 
 theorem update_order_irrelevant (spec now : Val) (wasInsert : Bool) (u u' fs fs' fs'' : Fields)
     (hu : u.all (fun kv => kv.1.startsWith "$") = true) (hne : u ≠ [])
     (hu' : u'.all (fun kv => kv.1.startsWith "$") = true) (hne' : u' ≠ [])
+    (hpos : positionalUpdate u = false)
     (hd : (addressed u).Nodup) (hp : (entries u).Perm (entries u'))
     (h : applyUpdate spec (.doc u) now wasInsert (.doc fs) = .ok (.doc fs'))
     (h' : applyUpdate spec (.doc u') now wasInsert (.doc fs) = .ok (.doc fs'')) :
@@ -191,13 +239,14 @@ theorem update_order_irrelevant (spec now : Val) (wasInsert : Bool) (u u' fs fs'
   have hpa : (addressed u).Perm (addressed u') := by
     rw [addressed_entries, addressed_entries]; exact hp.flatMap_right _
   have hd' : (addressed u').Nodup := hpa.nodup hd
+  have hpos' : positionalUpdate u' = false := by rw [positionalUpdate_perm hp]; exact hpos
   intro k
   by_cases hk : k ∈ addressed u
   · rw [addressed_entries, List.mem_flatMap] at hk
     obtain ⟨e, he, hke⟩ := hk
     rw [← addressed_single] at hke
-    obtain ⟨fs1, h1, hg1⟩ := update_is_pointwise spec now wasInsert u fs fs' hu hne hd h e he
-    obtain ⟨fs2, h2, hg2⟩ := update_is_pointwise spec now wasInsert u' fs fs'' hu' hne' hd' h' e
+    obtain ⟨fs1, h1, hg1⟩ := update_is_pointwise spec now wasInsert u fs fs' hu hne hpos hd h e he
+    obtain ⟨fs2, h2, hg2⟩ := update_is_pointwise spec now wasInsert u' fs fs'' hu' hne' hpos' hd' h' e
       (hp.mem_iff.mp he)
     rw [h1] at h2; cases h2
     rw [hg1 k hke, hg2 k hke]
@@ -207,22 +256,23 @@ theorem update_order_irrelevant (spec now : Val) (wasInsert : Bool) (u u' fs fs'
 
 theorem update_order_success (spec now : Val) (wasInsert : Bool) (u u' fs fs' : Fields)
     (hu : u.all (fun kv => kv.1.startsWith "$") = true) (hne : u ≠ []) (hne' : u' ≠ [])
-    (hs' : wellShaped u' = true)
+    (hs' : wellShaped u' = true) (hpos : positionalUpdate u = false)
     (hd : (addressed u).Nodup) (hp : (entries u).Perm (entries u'))
     (h : applyUpdate spec (.doc u) now wasInsert (.doc fs) = .ok (.doc fs')) :
     ∃ fs'', applyUpdate spec (.doc u') now wasInsert (.doc fs) = .ok (.doc fs'') := by
   have hpa : (addressed u).Perm (addressed u') := by
     rw [addressed_entries, addressed_entries]; exact hp.flatMap_right _
   have hd' : (addressed u').Nodup := hpa.nodup hd
+  have hpos' : positionalUpdate u' = false := by rw [positionalUpdate_perm hp]; exact hpos
   cases hx : applyUpdate spec (.doc u') now wasInsert (.doc fs) with
   | ok r =>
     obtain ⟨fs'', rfl⟩ := update_stays_document spec now wasInsert u' fs r
       (wellShaped_dollar hs') hne' hx
     exact ⟨fs'', rfl⟩
   | error err =>
-    obtain ⟨e, he, err1, h1⟩ := (update_error_iff spec now wasInsert u' fs hne' hs' hd').mp
+    obtain ⟨e, he, err1, h1⟩ := (update_error_iff spec now wasInsert u' fs hne' hs' hpos' hd').mp
       ⟨err, hx⟩
-    obtain ⟨err2, h2⟩ := update_error_of_entry spec now wasInsert u fs hu hne hd e
+    obtain ⟨err2, h2⟩ := update_error_of_entry spec now wasInsert u fs hu hne hpos hd e
       (hp.mem_iff.mpr he) err1 h1
     rw [h] at h2; cases h2
 
